@@ -238,7 +238,9 @@ def ob_clip_geo(ta: float, tp: float, wa: float, p0: float, p1: float, code: int
     want = ([p0, p1][c]) if A > 0 else 0.0
     if not _close(ev.clip_evaluations[0].score, want) or not _close(ev.score, want):
         return h.fail("clip / overall score is not the mean of the match scores")
-    return h.done(paired=(A > 0), unpaired=not (A > 0))
+    # reachability witnesses away from the knife edge (replayed in doubles)
+    gap = ta - tp if ta >= tp else tp - ta
+    return h.done(paired=(A > 0.25), unpaired=(not (A > 0) and gap > 1))
 
 
 def ob_clips(in0: bool, in1: bool, in2: bool, swap: bool) -> bool:
